@@ -718,4 +718,43 @@ def listServers (now liveness : Int) (q : ListQuery) (recs : List Listed) : Resp
   | some f => listExecute now liveness f recs
   | none => ⟨400, none, .none⟩
 
+/-! ## what the `discover` effect queues, and the body of a response without server data
+
+(Formerly built by the C17 driver, `Drv/C17.lean: renderEffect` / `errorBody`; the driver now renders these.) -/
+
+/-- `probe.GoalPort` (`probe.go`: `GoalDetails` = 0, `GoalPort` = 1) -/
+def goalPort : Nat := 1
+
+/-- the fields of a queued `probe.Probe` -/
+structure ProbeFields where
+  addr : Addr
+  port : Int
+  goal : Nat
+  retries : Int
+  maxRetries : Int
+  deriving DecidableEq, Repr
+
+/-- the probe `addserver.discoverServer` queues for the address `a`:
+`probe.New(svr.Addr, svr.Addr.Port, probe.GoalPort, maxRetries)` — the game port, goal `port`, no retries yet,
+`maxRetries` = the configured `DiscoveryRevivalRetries` -/
+def discoveryProbe (a : Addr) (maxRetries : Int) : ProbeFields := ⟨a, a.port, goalPort, 0, maxRetries⟩
+
+/-- the probe an effect queues: none, or the discovery probe for the effect's address
+(`RestBridge.addExecute_probe`: it is the probe `UC.addServer` appends to the queue) -/
+def Effect.probe (maxRetries : Int) : Effect → Option ProbeFields
+  | .none => Option.none
+  | .discover _ a _ _ => some (discoveryProbe a maxRetries)
+
+/-- the message of `gin.H{"error": "Invalid server address"}` (`servers_add.go:27,35`, `servers_view.go:24,40`) -/
+def invalidAddressMessage : String := "Invalid server address"
+
+/-- the `error` member of a response that carries no server data: the 400 of `api.AddServer` / `api.ViewServer` is
+`c.JSON(400, gin.H{"error": "Invalid server address"})`; the 400 of `api.ListServers` (`listing`) is `c.Status(400)` —
+no body — and so is every other status without server data (202, 404, 410).  `none` = the body is empty -/
+def Resp.errorMessage (r : Resp) (listing : Bool := false) : Option String :=
+  match r.body with
+  | some _ => Option.none
+  | Option.none => if r.status = 400 ∧ !listing then some invalidAddressMessage else Option.none
+
+
 end Swat4.Rest
